@@ -114,7 +114,14 @@ func (s *simStmt) Exec(args []driver.Value) (driver.Result, error) {
 		r := sqlRow{name: args[0].(string), date: args[1].(time.Time), seq: db.seq}
 		db.seq++
 		for i := 0; i < 5; i++ {
-			r.v[i] = args[2+i].(float64)
+			switch x := args[2+i].(type) { // a numeric column stores integers and floats alike
+			case float64:
+				r.v[i] = x
+			case int64:
+				r.v[i] = float64(x)
+			default:
+				return nil, fmt.Errorf("simsql: column %d: unsupported value %T", 2+i, x)
+			}
 		}
 		db.rows = append(db.rows, r)
 		return driver.RowsAffected(1), nil
